@@ -380,3 +380,91 @@ func inList(xs []string, x string) bool {
 	}
 	return false
 }
+
+// String ordering: Go compares strings lexicographically by octet.  strcmp is an uninterpreted function;
+// the facts that make it a total order consistent with content equality are instantiated (as ground facts)
+// for the strings that are actually compared in the function.
+func (fc *FnCtx) strCmp(a, b Val) string {
+	fc.declareFun("strcmp", fmt.Sprintf("(%s Int Int %s Int Int) Int", SArr, SArr))
+	fc.noteCmpString(a)
+	fc.noteCmpString(b)
+	return fmt.Sprintf("(strcmp %s %s %s %s %s %s)", a.C[0], a.C[1], a.C[2], b.C[0], b.C[1], b.C[2])
+}
+
+func (fc *FnCtx) noteCmpString(a Val) {
+	key := strings.Join(a.C, "|")
+	for _, x := range fc.cmpStrings {
+		if strings.Join(x.C, "|") == key {
+			return
+		}
+	}
+	if len(fc.cmpStrings) >= 6 {
+		return
+	}
+	fc.declareFun("strcmp", fmt.Sprintf("(%s Int Int %s Int Int) Int", SArr, SArr))
+	cmp := func(x, y Val) string {
+		return fmt.Sprintf("(strcmp %s %s %s %s %s %s)", x.C[0], x.C[1], x.C[2], y.C[0], y.C[1], y.C[2])
+	}
+	olds := fc.cmpStrings
+	fc.cmpStrings = append(fc.cmpStrings, a)
+	fc.assertGlobal(fmt.Sprintf("(= %s 0)", cmp(a, a)))
+	for _, b := range olds {
+		eq := fc.strEq(a, b)
+		fc.assertGlobal(fmt.Sprintf("(= (= %s 0) %s)", cmp(a, b), eq))
+		fc.assertGlobal(fmt.Sprintf("(= (= %s 0) %s)", cmp(b, a), eq))
+		fc.assertGlobal(fmt.Sprintf("(= (< %s 0) (> %s 0))", cmp(a, b), cmp(b, a)))
+		fc.assertGlobal(fmt.Sprintf("(= (> %s 0) (< %s 0))", cmp(a, b), cmp(b, a)))
+	}
+	all := fc.cmpStrings
+	for _, x := range all {
+		for _, y := range all {
+			for _, z := range all {
+				inv := 0
+				for _, w := range []Val{x, y, z} {
+					if strings.Join(w.C, "|") == key {
+						inv++
+					}
+				}
+				if inv == 0 {
+					continue
+				}
+				fc.assertGlobal(fmt.Sprintf("(=> (and (<= %s 0) (<= %s 0)) (<= %s 0))", cmp(x, y), cmp(y, z), cmp(x, z)))
+				fc.assertGlobal(fmt.Sprintf("(=> (and (< %s 0) (<= %s 0)) (< %s 0))", cmp(x, y), cmp(y, z), cmp(x, z)))
+				fc.assertGlobal(fmt.Sprintf("(=> (and (<= %s 0) (< %s 0)) (< %s 0))", cmp(x, y), cmp(y, z), cmp(x, z)))
+			}
+		}
+	}
+}
+
+// callResult finds the value of the latest call to the named function dominating the current point.
+func (fc *FnCtx) callResult(name string) (Val, bool) {
+	var best *ssa.Call
+	for _, b := range fc.fn.Blocks {
+		if b != fc.curBlock && !b.Dominates(fc.curBlock) {
+			continue
+		}
+		for i, in := range b.Instrs {
+			c, ok := in.(*ssa.Call)
+			if !ok {
+				continue
+			}
+			if b == fc.curBlock && i >= fc.curIdx {
+				continue
+			}
+			f, ok := c.Call.Value.(*ssa.Function)
+			if !ok || (fnName(f) != name && f.Name() != name) {
+				continue
+			}
+			if _, done := fc.vals[c]; !done {
+				continue
+			}
+			if best == nil || best.Block().Dominates(b) {
+				best = c
+			}
+		}
+	}
+	if best == nil {
+		return Val{}, false
+	}
+	return fc.vals[best], true
+}
